@@ -14,6 +14,10 @@ components are asked separately (mask-only filter, `domain._pkg_filters()` restr
 Atom/glob matching is a hand-written table, license acceptance is the last-mention-wins model of C12, the
 LICENSE formula is evaluated directly (no DNF).
 
+Mask stacking: repository masks, then profile nodes parent-first (a `-atom` line removes an identical atom
+stacked earlier, from a parent node or from the repository list -- portage/PMS stacking, which pkgcore follows),
+then the user's package.mask; any matching unmask (profile or user) wins.
+
 Kept inside what the statement fixes: no negated keywords in ACCEPT_KEYWORDS / package.accept_keywords, no
 profile package.keywords, no duplicate token inside one line (pkgcore de-duplicates lines with stable_unique),
 ACCEPT_KEYWORDS always contains ARCH and never a testing keyword without its stable form, ACCEPT_LICENSE is always defined somewhere, no USE-conditional LICENSE.
@@ -41,7 +45,7 @@ RULE = (
     "invisible packages under the reference; distinct = distinct spec"
 )
 ASSUMPTIONS = [
-    "profile package.mask '-atom' removes an identical atom inherited from a parent node (PMS)",
+    "profile package.mask '-atom' removes an identical atom inherited from a parent node or from the repository's own mask list (PMS / portage stacking)",
     "an empty package.accept_keywords entry means ~ARCH when ~ARCH is not globally accepted, nothing otherwise",
     "'*', '~*', '**' have the stated meaning in ACCEPT_KEYWORDS as well as in package.accept_keywords",
     "ACCEPT_LICENSE is the concatenation profile make.defaults + make.conf, then matching package.license lines in file order",
@@ -164,14 +168,16 @@ class Ref:
         self.spec = spec
         nodes = spec["profiles"]
         # ---- masks
-        prof_masks = []
+        # repository masks (profiles/package.mask of the repo) sit below the profile stack: a profile's
+        # `-atom` line removes an identical atom stacked earlier, be it from a parent node or from the repo
+        stacked = [("repo", a) for a in spec.get("repo_masks", ())]
         for n in nodes:
             for l in _lines(n.get("package.mask", "")):
                 a = l[0]
                 if a.startswith("-"):
-                    prof_masks = [m for m in prof_masks if m != a[1:]]
-                elif a not in prof_masks:
-                    prof_masks.append(a)
+                    stacked = [(src, m) for src, m in stacked if m != a[1:]]
+                elif ("profile", a) not in stacked:
+                    stacked.append(("profile", a))
         prof_unmasks = []
         for n in nodes:
             for l in _lines(n.get("package.unmask", "")):
@@ -181,8 +187,8 @@ class Ref:
                 else:
                     prof_unmasks.append(a)
         self.masks = {
-            "repo": list(spec.get("repo_masks", ())),
-            "profile": prof_masks,
+            "repo": [m for src, m in stacked if src == "repo"],
+            "profile": [m for src, m in stacked if src == "profile"],
             "user": [l[0] for l in _lines(_conf_text(spec, "package.mask"))],
         }
         self.unmasks = {"profile": prof_unmasks, "user": [l[0] for l in _lines(_conf_text(spec, "package.unmask"))]}
